@@ -31,7 +31,7 @@ m = dict(
     setup_cmd="python3 run.py setup",
     hooks=dict(guard="SMOOTH_VERIF", enable="run.py compiles the C14 units with -DSMOOTH_VERIF (props_config.py); the only hook is the event callback of reparameterize_spline (include/smooth/spline/detail/reparameterize_impl.hpp), every other observation point is public API",
                baseline_off_cmd="cmake --build /repo/_build && ctest --test-dir /repo/_build -j8 --timeout 900",
-               source_commits=["8110122", "cbaa38e", "ad1c0bc"], add_only=True),
+               source_commits=["8110122", "cbaa38e", "ad1c0bc", "7b4b654"], add_only=True),
     engines=[
         dict(name="tape-pbt", path="harness/drivers/main.cpp", serves_properties=[c["property_id"] for c in checks],
              kind_free_text="rapidcheck generates and shrinks 64-bit-word tapes; every check is a pure function check(Tape) with an explicit oracle; same binary replays tapes without rapidcheck"),
